@@ -319,6 +319,47 @@ def io_not_memoised(ctx):
         raise AnalysisError(f"{SOLN}: save / load helpers not found")
 
 
+def fresh_iterator_per_pass(ctx, rule="C20.R13"):
+    """"Iterating the solution yields one record per instant" holds for EVERY iteration, also two that overlap (zip(sol, sol), nested
+    loops, an export while another pass is suspended): Solution.__iter__ hands out a new cursor on every call - a constructor call or a
+    generator - never an object it keeps on the solution (`self._iterator`, rewound on each call: all passes then share one index)."""
+    rep = ctx.rep
+    mod = ctx.repo.module(SOLN)
+    its = [(q, f) for q, f in mod.defs().items() if isinstance(f, ast.FunctionDef) and f.name == "__iter__" and "SolutionIterator" not in q]
+    if not its:
+        raise AnalysisError(f"{SOLN}: Solution.__iter__ vanished")
+    for q, f in its:
+        C = f"{SOLN}:{q}"
+        if any(isinstance(w, (ast.Yield, ast.YieldFrom)) for w in walk_no_nested(f)):
+            rep.ok(rule, C, "generator function: every call starts a new pass")
+            continue
+        binds = {}
+        for w in ast.walk(f):
+            if isinstance(w, ast.Assign) and len(w.targets) == 1 and isinstance(w.targets[0], ast.Name):
+                binds.setdefault(w.targets[0].id, []).append(w.value)
+        stored = {norm_src(t) for w in ast.walk(f) if isinstance(w, ast.Assign) for t in w.targets if isinstance(t, (ast.Attribute, ast.Subscript))}
+        rets = [r for r in ast.walk(f) if isinstance(r, ast.Return) and r.value is not None]
+        if not rets:
+            rep.bad(rule, C, f.name, "__iter__ returns nothing", f"{SOLN}:{f.lineno}")
+        for r in rets:
+            vals = [r.value]
+            if isinstance(r.value, ast.Name) and r.value.id in binds:
+                vals = binds[r.value.id]
+            for v in vals:
+                root = v
+                while isinstance(root, (ast.Attribute, ast.Subscript)):
+                    root = root.value
+                if isinstance(v, (ast.Attribute, ast.Subscript)) and isinstance(root, ast.Name) and root.id in ("self", f.args.args[0].arg):
+                    rep.bad(rule, C, r, f"__iter__ returns `{norm_src(v)}`, an object kept on the solution: every `iter(sol)` hands out the SAME cursor (and rewinds it), so two passes "
+                            "that overlap - zip(sol, sol), nested loops, an export during another pass - steal each other's records; one pass no longer yields one record per instant",
+                            f"{SOLN}:{r.lineno}")
+                elif isinstance(v, ast.Call) and not any(norm_src(v) == norm_src(b) for t in stored for b in [v] if False):
+                    # a call result that is ALSO stored on the solution (self._it = X(self); return self._it) is caught through the attribute return above
+                    rep.ok(rule, C, f"returns the new object `{norm_src(v)[:60]}`")
+                else:
+                    rep.note(f"{rule}: {C}: returned expression `{norm_src(v)[:60]}` not classified; not decided")
+
+
 def iterator_rows(ctx):
     """"Iterating the solution yields one record per instant equal to the corresponding ROWS": every element selection the iterator (and its
     helpers) applies to a solution field with the running index selects along the LEADING axis (`field[self._index]`).  A selection along
@@ -491,6 +532,8 @@ def run(ctx):
     file_name_injective(ctx)
     rep.rule("C20.R11", "saving and loading go to the file on every call (no memoisation by file name)", 2)
     io_not_memoised(ctx)
+    rep.rule("C20.R13", "Solution.__iter__ hands out a NEW cursor on every call (constructor call / generator), never an iterator object memoised on the solution: overlapping passes are independent", 1)
+    fresh_iterator_per_pass(ctx)
     rep.rule("C20.R10", "the solution iterator selects each record along the leading (instant) axis", 1)
     iterator_rows(ctx)
     rep.rule("C20.R9", "the number of steps is rounded with a tolerance: no float-step np.arange / bare ceil of a float quotient decides where a time grid ends", 7)
@@ -735,4 +778,13 @@ MUTANTS += [
 MUTANTS += [
     dict(id="c20-r12-seed", canary=True, what="[seeded by sub-agent] save_solution normalises the file name with Path(filename).with_suffix('.pkl') (replaces what follows the last dot)", file=SOLN,
          old='    with open(filename, mode="wb") as f:\n', new='    from pathlib import Path\n    with open(Path(filename).with_suffix(".pkl"), mode="wb") as f:\n', expect="C20.R12"),
+]
+
+MUTANTS += [
+    dict(id="c20-r13-seed", canary=True, what="[seeded by sub-agent] Solution.__iter__ creates its iterator once, keeps it on the solution and rewinds it on every call", file=SOLN,
+         old="        return self.SolutionIterator(self)\n", new="        if getattr(self, '_iterator', None) is None:\n            self._iterator = self.SolutionIterator(self)\n        self._iterator._index = 0\n        return self._iterator\n", expect="C20.R13"),
+]
+NEUTRAL += [
+    dict(id="c20-n-r13", canary=True, what="Solution.__iter__ binds the new iterator to a local first", file=SOLN,
+         old="        return self.SolutionIterator(self)\n", new="        it = self.SolutionIterator(self)\n        return it\n"),
 ]
